@@ -14,6 +14,7 @@ type handle struct {
 	db      dbm.DB        // the DB under test (a backend or a prefix view)
 	again   func() dbm.DB // called after db.Close(): the reopened DB under test
 	cleanup func()        // remove files
+	closed  func()        // called after every db.Close(): release what the closed store pins (see hook)
 }
 
 type backend struct {
@@ -28,7 +29,7 @@ type backend struct {
 func memBackend() *backend {
 	return &backend{name: "memdb", base: "memdb", batch: true, mk: func() *handle {
 		m := dbm.NewMemDB()
-		return &handle{db: m, again: func() dbm.DB { return m }, cleanup: func() {}}
+		return &handle{db: m, again: func() dbm.DB { return m }, cleanup: func() {}, closed: func() {}}
 	}}
 }
 
@@ -36,8 +37,9 @@ func memBackend() *backend {
 func diskBackend(typ dbm.DBBackendType, batch, noEmptyKey bool) *backend {
 	return &backend{name: string(typ), base: string(typ), batch: batch, noEmptyKey: noEmptyKey, mk: func() *handle {
 		dir := newDir()
-		open := func() dbm.DB { return dbm.NewDB("c19", typ, dir, 1) }
-		return &handle{db: open(), again: open, cleanup: func() { os.RemoveAll(dir) }}
+		var raw dbm.DB
+		open := func() dbm.DB { raw = dbm.NewDB("c19", typ, dir, 1); return raw }
+		return &handle{db: open(), again: open, cleanup: func() { os.RemoveAll(dir) }, closed: func() { dbm.VerifC19Release(raw) }}
 	}}
 }
 
@@ -84,6 +86,7 @@ func prefixBackend(under *backend, prefix string, withNeighbours bool) *backend 
 			db:      dbm.NewPrefixDB(u.db, []byte(prefix)),
 			again:   func() dbm.DB { return dbm.NewPrefixDB(u.again(), []byte(prefix)) },
 			cleanup: u.cleanup,
+			closed:  u.closed,
 		}
 	}}
 }
@@ -116,25 +119,29 @@ func plan(r *vk.Run) []*cfg {
 		add(pmem, keysFull, two, 1, 3, 100, 0)
 		add(pmemFF, keysFull, two, 1, 3, 100, 0)
 		add(pmemAlone, keysMid, two, 1, 3, 100, 0)
+		add(mem, keysMid, two, 1, 4, 400, 0)
+		add(pmem, keysMid, two, 1, 4, 400, 0)
 		add(fsdb, keysMid, two, 3, 3, 100, 0)
 		add(bolt, keysMid, two, 3, 3, 100, 0)
-		add(ldb, keysSmall, two, 1, 3, 200, 0)
-		add(badger, keysTiny, two, 1, 3, 200, 0)
-		add(prefixBackend(ldb, "p", true), keysSmall, two, 1, 2, 200, 0)
-		add(prefixBackend(badger, "p", true), keysTiny, two, 1, 2, 200, 0)
+		add(ldb, keysSmall, two, 1, 3, 50, 0)
+		add(badger, keysTiny, two, 1, 3, 40, 0)
+		add(prefixBackend(ldb, "p", true), keysSmall, two, 1, 2, 20, 0)
+		add(prefixBackend(badger, "p", true), keysTiny, two, 1, 2, 20, 0)
 	} else {
 		add(mem, keysFull, two, 3, 4, 400, 0)
 		add(pmem, keysFull, two, 3, 3, 100, 0)
 		add(pmem, keysFull, two, 1, 4, 400, 0)
 		add(pmemFF, keysFull, two, 1, 4, 400, 0)
 		add(pmemAlone, keysFull, two, 1, 3, 100, 0)
+		add(mem, keysMid, two, 1, 5, 2000, 0)
+		add(pmem, keysMid, two, 1, 5, 2000, 0)
 		add(fsdb, keysFull, two, 3, 4, 200, 0)
 		add(bolt, keysFull, two, 3, 3, 100, 0)
 		add(bolt, keysMid, two, 1, 4, 400, 0)
 		add(ldb, keysFull, two, 3, 3, 200, 0)
 		add(ldb, keysSmall, two, 1, 4, 400, 0)
-		add(badger, keysMid, three, 1, 3, 200, 0)
-		add(badger, keysSmall, two, 3, 3, 200, 0)
+		add(badger, keysMid, three, 1, 3, 50, 0)
+		add(badger, keysSmall, two, 3, 3, 50, 0)
 		add(prefixBackend(ldb, "p", true), keysMid, two, 1, 3, 200, 0)
 		add(prefixBackend(ldb, "p\xff", true), keysMid, two, 1, 3, 200, 0)
 		add(prefixBackend(bolt, "p", true), keysMid, two, 1, 3, 200, 0)
